@@ -37,7 +37,7 @@ def scenario(rng, k, tier):
         for _ in range(refused_first):
             L.append("# X")
             if rng.random() < 0.7:
-                L.append(pkt_op("unprotect", 2, f"@{a:x}~{rng.randrange(8 * 12, 8 * (len(pkt) + 10)):x}", cap=len(pkt) + 20, mode=0))
+                L.append(pkt_op("unprotect", 2, f"@{a:x}~{rng.randrange(8 * 12, 8 * (len(pkt) + 4)):x}", cap=len(pkt) + 20, mode=0))
             else:
                 L.append(pkt_op("unprotect", 2, f"@{a:x}", cap=rng.choice([0, 4, len(pkt) - 1]), mode=rng.choice([1, 2])))
         L.append(pkt_op("unprotect", 2, f"@{a:x}", cap=len(pkt) + 20, mode=0))
@@ -89,7 +89,7 @@ def scenario(rng, k, tier):
         # a third of the histories: the first packet after set_roc is far ahead (more than half the sequence space) inside
         # that same ROC, so it goes through the index-advance path even when r equals the current ROC
         low = true_idx & 0xffff
-        if rng.random() < 0.35 and low < 30000:
+        if rng.random() < 0.35 and low < 30000 and late_first is None:      # (a late first packet takes up the imposed ROC itself)
             true_idx += rng.choice([32769, 33000, 40000, 65535 - low])
     # traffic through two further wraps with mild reordering
     steps = 0
@@ -210,4 +210,7 @@ def families(tier, seed):
     for k in range(n):
         txt, behind = scenario(rng, k, tier)
         scripts.append((f"setroc-{k}", txt))
-    return [Family("set-roc-histories", scripts, monitor=monitor)]
+    gs = [(f"gsetroc-{k}", with_aead(scenario, random.Random(seed * 1000 + 116 + k), k, tier)[0]) for k in range(6 if tier == "quick" else 60)]
+    return [Family("set-roc-histories", scripts, monitor=monitor),
+            # srtp_protect_aead / srtp_unprotect_aead have their own copies of the pending-ROC handling
+            Family("gcm-set-roc-histories", gs, monitor=monitor, config="openssl")]
